@@ -1,18 +1,73 @@
 (* Corr/C09Run.v — correspondence evaluator for C09: replays the lock-event traces recorded on the running
    implementation (verifEvent kinds 200-299, harness/cmd/c09) on the model's trace acceptor Conc/Locks.accepts
-   and returns the indexes of the traces the model does not accept. *)
-From GL Require Import Conc.Locks.
-From Coq Require Import List NArith.
+   and returns the indexes of the traces the model does not accept.
+   KOpt cases (options correspondence): an Options / ReadOptions / WriteOptions value and what the REAL getters of
+   leveldb/opt returned for it (opt.VerifGetters: the scalars in the order of opt.VerifScalarNames; expand limit,
+   grandparent overlaps, source limit, table size, total size for levels 0..12) must equal the results of the
+   model Gen/Options.v; a float-derived result the model reports as Outside its exact domain is not compared, a
+   model panic never matches. *)
+From GL Require Import Conc.Locks Gen.Options.
+From Coq Require Import List NArith ZArith String Ascii.
 Import ListNotations.
 
 (* KTrace complete events: events are (thread, kind, site) as N; complete = every call returned and Close returned *)
-Inductive c09case := KTrace (complete : bool) (evs : list (N * N * N)).
+Inductive c09case :=
+| KTrace (complete : bool) (evs : list (N * N * N))
+| KOpt (o : option Options) (ro : option ReadOptions) (wo : option WriteOptions) (res : string).
+
+(* the real getters' results travel as text (a Coq string literal is lexed much faster than a list of numerals):
+   rows separated by "|", numbers by ",", decimal with an optional leading "-"; first row = the scalars, then the
+   five per-level rows *)
+Fixpoint parse_rows (s : string) (neg : bool) (acc : Z) (row : list Z) (rows : list (list Z)) : list (list Z) :=
+  let fin := if neg then Z.opp acc else acc in
+  match s with
+  | EmptyString => rev (rev (fin :: row) :: rows)
+  | String c r =>
+    let n := N_of_ascii c in
+    if N.eqb n 44 then parse_rows r false 0%Z (fin :: row) rows
+    else if N.eqb n 124 then parse_rows r false 0%Z [] (rev (fin :: row) :: rows)
+    else if N.eqb n 45 then parse_rows r true acc row rows
+    else parse_rows r neg (acc * 10 + Z.of_N (n - 48))%Z row rows
+  end.
+
+Fixpoint zlist_eqb (a b : list Z) : bool :=
+  match a, b with
+  | [], [] => true
+  | x :: a', y :: b' => Z.eqb x y && zlist_eqb a' b'
+  | _, _ => false
+  end.
+
+Definition gres_matches (m : gres) (go : Z) : bool :=
+  match m with Val z => Z.eqb z go | Outside => true | GoPanic => false end.
+
+Fixpoint row_ok (m : list gres) (go : list Z) : bool :=
+  match m, go with
+  | [], [] => true
+  | x :: m', y :: go' => gres_matches x y && row_ok m' go'
+  | _, _ => false
+  end.
+
+Fixpoint rows_ok (m : list (list gres)) (go : list (list Z)) : bool :=
+  match m, go with
+  | [], [] => true
+  | x :: m', y :: go' => row_ok x y && rows_ok m' go'
+  | _, _ => false
+  end.
+
+Definition opt_levels : nat := 13.
 
 Definition conv (e : N * N * N) : nat * nat * nat :=
   let '(t, k, a) := e in (N.to_nat t, N.to_nat k, N.to_nat a).
 
 Definition run_case (c : c09case) : bool :=
-  match c with KTrace complete evs => accepts complete (map conv evs) end.
+  match c with
+  | KTrace complete evs => accepts complete (map conv evs)
+  | KOpt o ro wo res =>
+    match parse_rows res false 0%Z [] [] with
+    | scal :: lv => zlist_eqb (scalar_results o ro wo) scal && rows_ok (level_results o opt_levels) lv
+    | [] => false
+    end
+  end.
 
 Fixpoint mism_from {A} (f : A -> bool) (i : N) (l : list A) : list N :=
   match l with
@@ -24,4 +79,11 @@ Definition mismatches (l : list c09case) : list N := mism_from run_case 0%N l.
 
 (* diagnostic: index of the first rejected event of a trace *)
 Definition first_reject (c : c09case) : option nat :=
-  match c with KTrace _ evs => fst (krun kinit 0 (map conv evs)) end.
+  match c with KTrace _ evs => fst (krun kinit 0 (map conv evs)) | KOpt _ _ _ _ => None end.
+
+(* diagnostic for a KOpt case: the model's results *)
+Definition opt_model_results (c : c09case) : list Z * list (list gres) :=
+  match c with
+  | KOpt o ro wo _ => (scalar_results o ro wo, level_results o opt_levels)
+  | _ => ([], [])
+  end.
